@@ -276,6 +276,46 @@ pub fn run_c12(tier: &str) -> i32 {
         }
         rep.set("set_model_steps", json!(shapes.into_iter().collect::<Vec<_>>()));
     });
+    // the first line decides - also when it is longer than any buffer
+    let lens: Vec<usize> = if thorough { vec![100, 4095, 4096, 8189, 8190, 8191, 8192, 8193, 16383, 16384, 16385, 70000] } else { vec![8190, 8191, 8192, 8193, 70000] };
+    sharded(&rep, par_threads().min(lens.len() * 2), |k, n, rep| {
+        let b = Bench::new(&Tree::new());
+        for (li, len) in lens.iter().enumerate() {
+            for first_crlf in [false, true] {
+                if (li * 2 + first_crlf as usize) % n != k {
+                    continue;
+                }
+                for first_kind in ["text", "write"] {
+                    let first = if first_kind == "text" { "y".repeat(*len) } else { format!("-TXTPP#write {}", "y".repeat(*len - 13)) };
+                    for rest in ["x\n-TXTPP#include inc.txt\n-TXTPP#temp t.out\n-a\n-b\n", "x\r\n-TXTPP#include inc.txt\r\n-TXTPP#temp t.out\r\n-a\r\n-b\r\n"] {
+                        let mut src = first.clone().into_bytes();
+                        src.extend_from_slice(if first_crlf { b"\r\n" } else { b"\n" });
+                        src.extend_from_slice(rest.as_bytes());
+                        std::fs::write(b.base.join("inc.txt"), "p\r\nq\nr\r\n").unwrap();
+                        let r = b.run(&src, Mode::Build, true, true);
+                        rep.tv(1);
+                        rep.tr(1);
+                        rep.add("long_first_line_cases", 1);
+                        if r.v == V::Ok {
+                            for (what, bytes) in [("output", &r.out), ("temp target", &r.tmp)] {
+                                if let Some(bytes) = bytes {
+                                    if let Some(bad) = scan_le(bytes, first_crlf) {
+                                        rep.violate(
+                                            "foreign-line-ending",
+                                            format!("source whose first line ({first_kind}) has {len} bytes and ends in {}: {what} has {bad}", if first_crlf { "CRLF" } else { "LF" }),
+                                            rj("C12", &src, json!({"inc": "p\r\nq\nr\r\n", "cmd": ""})),
+                                        );
+                                    }
+                                }
+                            }
+                        } else {
+                            rep.violate("long-line-build-failed", format!("first line of {len} bytes: {}", r.v.kind()), rj("C12", &src, json!({"inc": "p\r\nq\nr\r\n", "cmd": ""})));
+                        }
+                    }
+                }
+            }
+        }
+    });
     finish_steps(&rep);
     if rep.get("cases_built_with_foreign_line_endings") == 0 {
         rep.machinery("vacuous: no successfully built case mixed line endings".into());
@@ -435,14 +475,14 @@ pub fn run_c16(tier: &str) -> i32 {
             rep.set("set_model_steps", json!(shapes.into_iter().collect::<Vec<_>>()));
         });
     }
-    // (c) ordinary lines appear in order on the C01 core space
+    // (c) ordinary lines appear in order on the C01 spaces (core and extension alphabet)
     let l_c = if thorough { 4 } else { 3 };
-    let help = helpers();
+    for (alpha, help) in [(SIGMA_CORE.to_vec(), helpers()), (SIGMA_EXT.to_vec(), helpers_ext())] {
     sharded_dyn(&rep, par_threads(), |_k, _n, next, rep| {
         let b = Bench::new(&help);
         let stop = || rep.over_cap();
-        for_each_seq(SIGMA_CORE.len(), l_c, next, &stop, &mut |seq| {
-            let lines: Vec<&str> = seq.iter().map(|&i| SIGMA_CORE[i]).collect();
+        for_each_seq(alpha.len(), l_c, next, &stop, &mut |seq| {
+            let lines: Vec<&str> = seq.iter().map(|&i| alpha[i]).collect();
             let src = build_source(&lines, false, true);
             let m = match b.model(&src, true) {
                 Ok(m) => m,
@@ -474,6 +514,7 @@ pub fn run_c16(tier: &str) -> i32 {
         });
         rep.set("set_model_steps", json!(["c:0"]));
     });
+    }
     finish_steps(&rep);
     if rep.get("a_texts_verbatim") == 0 || rep.get("b_round_trips_of_texts_containing_directive_lines") == 0 {
         rep.machinery("vacuous enumeration".into());
@@ -530,7 +571,11 @@ pub fn replay(v: &serde_json::Value) -> bool {
                 return r.v != V::Ok || r.out.as_deref() != Some(&want[..]);
             }
             // part (c): ordinary lines in order
-            let hb = Bench::new(&helpers());
+            let hb = Bench::new(&{
+                let mut h = helpers_ext();
+                h.extend(helpers());
+                h
+            });
             let r = hb.run(&src, Mode::Build, true, true);
             if let (Ok(m), V::Ok) = (hb.model(&src, true), &r.v) {
                 let out = String::from_utf8_lossy(r.out.as_deref().unwrap_or_default()).to_string();
